@@ -267,6 +267,10 @@ from . import removals
 
 from . import mustcall
 
+from . import timers
+
+from . import vocab
+
 OBLIGATIONS = [
     ('C05.O1', 'every accepted input packet is acknowledged', 'From the end of the shape checks every path to a normal return '
      'that is not a decoder rejection passes through send_input_ack -- including the path on which the decode reference is '
@@ -288,4 +292,6 @@ OBLIGATIONS = [
     ('C05.I', 'initial state', 'every constructor gives the fields this property\'s rules interpret (NULL_FRAME = none / nothing yet, 0 = first frame, latches open, typestate start) the value listed in tables/initial_state.json; every field compared with NULL_FRAME anywhere is listed; see rules/initial.py', initial.rule_for('C05')),
     ('C05.R', 'who may remove', 'every call that takes elements out of a collection this property\'s rules rely on (keyed removal from a map, or bulk / positional removal) is one of the reviewed sites in tables/removals.json; a lookup turned into a removal, a second prune, a clear on another path is reported; see rules/removals.py', removals.rule_for('C05')),
     ('C05.M', 'must-call floor', 'the calls listed for this property in tables/must_call.json are made on every path from the entry of their function to a normal return (interprocedural must-call): a new early return, fast path or extra condition in front of one of them is reported; see rules/mustcall.py', mustcall.rule_for('C05')),
+    ('C05.T', 'the endpoint\'s timer table', 'retransmission and handshake retry are timer driven: per timer the field, duration, protocol state, action, re-arm site and writer set are read off poll() and compared with the table in rules/timers.py -- the action\'s guard is exactly `state & field + duration < now`, firing re-arms the timer on every path, nothing else writes the timestamp, every stored value is a clock reading, durations are the documented ones.', timers.rule),
+    ('C05.V', 'no unreviewed condition in the pinned helpers', 'for each helper whose body this property\'s rules pin (tables/condition_terms.json), the terms its path conditions are built from (fields, parameters, call results -- no constants, operators or local names) are a subset of the reviewed vocabulary: one more `if` in front of a pinned result (a lock that may time out, "only while an endpoint is running") is reported; see rules/vocab.py', vocab.rule_for('C05')),
 ]
